@@ -995,13 +995,14 @@ fn case_plumb(kv: &Kv) -> String {
         similar::verif::clock_remove();
         (similar::verif::last_deadline(), t0, t1)
     };
+    // every probe of one diff must see the SAME deadline value (an inner run given another value shows as "mixed")
     let rel = |seen: Option<Instant>, t0: Instant, t1: Instant| match seen {
         None => fmt(false, None, None, None),
-        Some(x) => fmt(true, None, Some(x >= t0 + d), Some(x <= t1 + d)),
+        Some(x) => fmt(true, None, Some(x >= t0 + d && !similar::verif::deadline_values_mixed()), Some(x <= t1 + d)),
     };
     let abs = |seen: Option<Instant>, want: Instant| match seen {
         None => fmt(false, None, None, None),
-        Some(x) => fmt(true, Some(x == want), None, None),
+        Some(x) => fmt(true, Some(x == want && !similar::verif::deadline_values_mixed()), None, None),
     };
     let oi: Vec<u32> = o.iter().map(|x| *x as u32).collect();
     let ni: Vec<u32> = n.iter().map(|x| *x as u32).collect();
